@@ -143,3 +143,139 @@ func sortPos(ps []token.Pos) {
 		}
 	}
 }
+
+// C02.f — visited sets guard recursion only (stack discipline).
+//
+// The FType traversals reach a union's cases through a global table, so a
+// recursive union would loop; a mutable "visited" set cuts the cycle.  If the
+// entry outlives the guarded subtree the guard also skips *sibling* occurrences
+// of the same union (Opt<A> * Opt<B>): their variables are neither substituted
+// nor collected, and inference variables leak into the emitted signature.
+// Decided on the un-normalised blocks (statement order matters):
+//   every `SSetPut(S, K)` statement is (1) in the else-branch of `if SSetHasKey(S, K)`,
+//   (2) followed in the same block by `SSetRemove(S, K)` with no branching statement between,
+//   (3) and the key identifies the *instance* (uniToKey / rtToKey of the arm's payload: name and
+//       type arguments), because the cases of Opt<Opt<T>> contain another instance of Opt
+//       that is not a recursive occurrence.
+var guardPins = map[string]string{
+	"SSetHasKey": "(#1(dict.TryFind(p0.Dict, p1)) && #0(dict.TryFind(p0.Dict, p1)))",
+	"SSetPut":    "seq[dict.Add(p0.Dict, p1, true)]",
+	"SSetRemove": "seq[dict.Add(p0.Dict, p1, false)]",
+	"NewSSet":    "SSet{Dict: dict.New()}",
+	"uniToKey":   "encodedKey(p0.Name, p0.Targs)",
+	"rtToKey":    "encodedKey(p0.Name, p0.Targs)",
+	"encodedKey": `frt.SInterP("%s_%s", p0, strings.Concat("_", slice.Map(FTypeToGo, p1)))`,
+}
+
+func checkGuardDiscipline(c *Ctx, f *FC) {
+	r := c.R
+	for _, name := range sortedKeys(guardPins) {
+		c.expectNF(f, "C02.f", name, []string{guardPins[name]}, "closed form of the visited-set primitive")
+	}
+	callTo := func(t ir.Term, name string) *ir.App {
+		app, ok := isCallTo(t, f.Path+"."+name)
+		if !ok {
+			return nil
+		}
+		return app
+	}
+	sites := 0
+	for _, fn := range f.Prog.Funcs {
+		fn := fn
+		pos := c.Pos(f.M.Fset, fn.Decl.Pos())
+		// the guards: if SSetHasKey(S,K) then … else <block>
+		guardOf := map[*ir.Block]string{}
+		ir.WalkFunc(fn, func(t ir.Term) bool {
+			if iff, ok := t.(*ir.If); ok && iff.Else != nil {
+				if app := callTo(iff.Cond, "SSetHasKey"); app != nil && len(app.Args) == 2 {
+					guardOf[iff.Else] = ir.String(f.Path, app.Args[0]) + ", " + ir.String(f.Path, app.Args[1])
+				}
+			}
+			return true
+		})
+		n := 0
+		nested := 0
+		keyN := map[string]int{}
+		ir.WalkFunc(fn, func(t ir.Term) bool {
+			if callTo(t, "SSetPut") != nil {
+				nested++
+			}
+			return true
+		})
+		ir.EachBlock(fn, func(b *ir.Block) {
+			for i, s := range b.Stmts {
+				do, ok := s.(*ir.Do)
+				if !ok {
+					continue
+				}
+				put := callTo(do.X, "SSetPut")
+				if put == nil || len(put.Args) != 2 {
+					continue
+				}
+				n++
+				sites++
+				cons := fmt.Sprintf("SSetPut#%d", n)
+				key := ir.String(f.Path, put.Args[0]) + ", " + ir.String(f.Path, put.Args[1])
+				var problems []string
+				if g, ok := guardOf[b]; !ok || g != key {
+					problems = append(problems, "the insertion is not the first thing done in the else-branch of `if SSetHasKey("+key+")`")
+				}
+				j := -1
+				for k := i + 1; k < len(b.Stmts); k++ {
+					if d2, ok := b.Stmts[k].(*ir.Do); ok {
+						if rm := callTo(d2.X, "SSetRemove"); rm != nil && len(rm.Args) == 2 && ir.String(f.Path, rm.Args[0])+", "+ir.String(f.Path, rm.Args[1]) == key {
+							j = k
+							break
+						}
+					}
+				}
+				if j < 0 {
+					problems = append(problems, "no SSetRemove("+key+") follows in the same block: the entry outlives the guarded subtree, so a later sibling occurrence of the same name (Opt<A> * Opt<B>) is skipped — its type variables are neither substituted nor collected")
+				} else {
+					for k := i + 1; k < j; k++ {
+						switch b.Stmts[k].(type) {
+						case *ir.Let, *ir.Do:
+						default:
+							problems = append(problems, "a branching statement lies between the insertion and the removal")
+						}
+					}
+				}
+				if len(problems) == 0 {
+					r.OK("C02.f", fn.Name, cons, pos, "inserted under its own membership test and removed when the guarded subtree is done ("+key+")")
+				} else {
+					r.Bad("C02.f", fn.Name, cons, pos, strings.Join(problems, "; "))
+				}
+			}
+		})
+		// (3) on the normal form, where the key is inlined
+		ir.Walk(f.N.Func(fn), func(t ir.Term) bool {
+			for _, prim := range []string{"SSetHasKey", "SSetPut", "SSetRemove"} {
+				app := callTo(t, prim)
+				if app == nil || len(app.Args) != 2 {
+					continue
+				}
+				k := ir.String(f.Path, app.Args[1])
+				inst := false
+				if ka, ok := app.Args[1].(*ir.App); ok && len(ka.Args) == 1 {
+					if fr, ok := ka.Fun.(*ir.FuncRef); ok && (fr.Key == f.Path+".uniToKey" || fr.Key == f.Path+".rtToKey") {
+						if _, ok := ka.Args[0].(*ir.Payload); ok {
+							inst = true
+						}
+					}
+				}
+				keyN[prim]++
+				cons := fmt.Sprintf("%s-key#%d", prim, keyN[prim])
+				r.Check(inst, "C02.f", fn.Name, cons, pos, "keyed by the instance: "+k,
+					"the visited set is keyed by "+k+", which does not identify the instance (name and type arguments): another instance of the same generic type inside the guarded subtree (the inner Opt<T> of Opt<Opt<T>>) is taken for a recursive occurrence and skipped")
+			}
+			return true
+		})
+		if nested > n {
+			r.Undecided("C02.f", fn.Name, "SSetPut-in-expression", pos, sprintf("%d SSetPut call(s) are not plain statements of a block; the discipline cannot be read off", nested-n))
+		}
+	}
+	r.Unit("visited_set_insertions", sites)
+	if sites < 2 {
+		r.Undecided("C02.f", "-", "sites", "fc", sprintf("%d visited-set insertions found; the union arms of collectTVarFTypeWithSet and transTVFTypeWithSet (2) were confirmed by hand", sites))
+	}
+}
